@@ -105,6 +105,16 @@ theorem capacity_step (cfg : Cfg) (hcap : 1 ≤ cfg.cap) (s : St) (l : Label) (s
     step_elim hs
     all_goals simp_all
 
+theorem send_reg (cfg : Cfg) (s : St) (x : Nat) :
+    (send cfg s x).registered = s.registered ∧ (send cfg s x).tornDown = s.tornDown := by
+  unfold send
+  by_cases hc : s.pending.length ≥ cfg.cap <;> by_cases ho : s.isOpen <;> simp [hc, ho, truncate, push]
+
+theorem trySend_reg (cfg : Cfg) (s : St) (x : Nat) :
+    (trySend cfg s x).1.registered = s.registered ∧ (trySend cfg s x).1.tornDown = s.tornDown := by
+  unfold trySend
+  by_cases ho : s.isOpen <;> by_cases hc : s.pending.length < cfg.cap <;> simp [ho, hc, push]
+
 /-! ### Retries re-deliver exactly the returned remainder (C06) -/
 
 structure InvRetry (s : St) : Prop where
